@@ -319,7 +319,7 @@ func VF_C15_params_lazy() {
 	in := input.Input{Meta: input.Meta{Functions: vfBuiltins}, Params: map[string]any{"p": v}}
 	vfAssert(w.meta.Process(in, &o) == nil, "meta compiles")
 	if s, ok := v.(string); ok {
-		vfAssume(vfRuneLen(s) <= vfBound("c15.len", 5, 7))
+		vfAssume(vfRuneLen(s) <= vfBound("c15.len", 5, 8))
 	}
 	err := w.pstep.Process(in, &o)
 	if err == nil && len(o.Params) == 1 {
